@@ -53,6 +53,11 @@ func c16(r *core.Run) {
 	c16QueryValueReadOnly(r, "O3", "store/badgerstore")
 	r.Rule("H1", "hand-over to the next run: in the stop sequence every write of a per-run field (connection, in-channel, registry, work queue) comes before the atomic store of the stopped state - that store is what publishes the fields to a Serve that wins the stopped->starting CAS on another goroutine; a write after it races with the new run's initialisation and can wipe the new connection", 2)
 	c16ReleaseBeforeStopped(r, "H1", a, p.FuncsOfPkg(""))
+	r.Rule("H2", "hand-over from serve to the producers (shared with C03.S5): serve initialises the queue state without the mutex and then publishes the started state with an atomic store; enqueue (With, WithResource, WithGroup, requests) touches that state only after an atomic load has seen started - that load/store pair is the only thing ordering serve's unlocked writes before a producer's first access", 1)
+	if e != nil {
+		ops, _ := stateOps(p.FuncsOfPkg(""), a)
+		c03EnqueueStartedCheck(r, "H2", a, e, startedConst(p, a, ops))
+	}
 	c01Funnel(r, "G1", a, p.FuncsOfPkg(""))
 	root := p.FuncsOfPkg("")
 	firstGo := firstWorkerStart(p, a)
@@ -586,11 +591,7 @@ func c16ReleaseBeforeStopped(r *core.Run, rule string, a *svcAnchors, root []*ss
 	p := r.P
 	ops, _ := stateOps(root, a)
 	var started int64 = -1
-	for _, op := range ops {
-		if op.Op == "store" && op.Fn == a.Serve {
-			started = op.New
-		}
-	}
+	started = startedConst(p, a, ops)
 	var shutdown *ssa.Function
 	for _, op := range ops {
 		if op.Op == "cas" && op.Old == started {
